@@ -501,9 +501,9 @@ m("C03", "start-suffix-dropped", C,
             yield EmitText(">")''')
 m("C03", "attr-eq-normalised", C,
   '''        attr_format = (node.space + node.name + node.eq +
-                       node.quote + "%s" + node.quote)''',
+                       node.quote).replace("%", "%%") + "%s" + node.quote''',
   '''        attr_format = (node.space + node.name + "=" +
-                       node.quote + "%s" + node.quote)''')
+                       node.quote).replace("%", "%%") + "%s" + node.quote''')
 m("C03", "attr-space-eq-swapped", ZP,
   '''                    quote,
                     eq,
@@ -2318,3 +2318,7 @@ for _p in ("C07", "C11"):
 m("C07", "attributes-left-out-of-multipart", "tal.py",
   'MULTIPART = frozenset(["define", "repeat", "attributes"])',
   'MULTIPART = frozenset(["define", "repeat"])')
+
+m("C03", "attribute-format-unescaped", C,
+  '''                       node.quote).replace("%", "%%") + "%s" + node.quote''',
+  '''                       node.quote) + "%s" + node.quote''')
